@@ -458,7 +458,7 @@ def main(argv):
             if results[name]['status'] == 'confirmed':
                 results[name]['status'] = 'inconclusive'
                 results[name]['reasons'] = ['model/real-stack disagreement on a path witness: %s %s' % (rr['status'], str(rr.get('mismatch') or rr.get('err'))[:300])]
-    enum = enumeration_cross_check(results, tmpl, findings, seed, {'quick': (10, 1500), 'thorough': (60, 12000)}[tier], jobs_n)
+    enum = enumeration_cross_check(results, tmpl, findings, seed, {'quick': (8, 600), 'thorough': (60, 12000)}[tier], jobs_n)
     for name, inputs, rr in enum['violations']:
         t = tmpl[name]
         path = write_replay(prop, t, {'inputs': inputs, 'obs': None}, rr, 'bounded exhaustive concrete cross-check on the real stack')
